@@ -791,3 +791,287 @@ def _doc_member(rng, desc, classes, scls, f, ty, ns, name, depth, bad_p, nil_p, 
     for _ in range(rng.choice([0, 1, 2, 3]) if depth > 0 else 0):
         c.append(_doc_member(rng, desc, classes, icls, None, ty[1], ins, iname, depth - 1, bad_p, nil_p, notes, True))
     return c
+
+
+# ------------------------------------------------------------------ Gallina rendering (C06/Model.v)
+from lib import gz, gtext, glist, gbool, gopt
+
+
+class RegexError(Exception):
+    pass
+
+
+def parse_re(p):
+    """the regular-expression fragment of C06/Syntax.v -> Gallina term (fail closed)"""
+    pos = [0]
+
+    def peek():
+        return p[pos[0]] if pos[0] < len(p) else None
+
+    def eat():
+        c = p[pos[0]]
+        pos[0] += 1
+        return c
+
+    def alt():
+        a = seq()
+        while peek() == '|':
+            eat()
+            a = '(RAlt %s %s)' % (a, seq())
+        return a
+
+    def seq():
+        items = []
+        while peek() is not None and peek() not in '|)':
+            items.append(rep())
+        if not items:
+            return 'REps'
+        out = items[-1]
+        for it in reversed(items[:-1]):
+            out = '(RSeq %s %s)' % (it, out)
+        return out
+
+    def times(a, n):
+        if n == 0:
+            return 'REps'
+        out = a
+        for _ in range(n - 1):
+            out = '(RSeq %s %s)' % (a, out)
+        return out
+
+    def rep():
+        a = atom()
+        while peek() in ('*', '+', '?', '{'):
+            c = eat()
+            if c == '*':
+                a = '(RStar %s)' % a
+            elif c == '+':
+                a = '(RSeq %s (RStar %s))' % (a, a)
+            elif c == '?':
+                a = '(RAlt REps %s)' % a
+            else:
+                j = p.index('}', pos[0])
+                spec = p[pos[0]:j]
+                pos[0] = j + 1
+                if ',' in spec:
+                    lo, hi = spec.split(',')
+                    lo, hi = int(lo), int(hi)
+                    opt = 'REps'
+                    for _ in range(hi - lo):
+                        opt = '(RAlt REps (RSeq %s %s))' % (a, opt)
+                    a = '(RSeq %s %s)' % (times(a, lo), opt) if lo else opt
+                else:
+                    a = times(a, int(spec))
+        return a
+
+    def atom():
+        c = eat()
+        if c == '(':
+            a = alt()
+            if peek() != ')':
+                raise RegexError('unbalanced group in %r' % p)
+            eat()
+            return a
+        if c == '[':
+            items = []
+            if peek() == '^':
+                raise RegexError('negated class in %r' % p)
+            while peek() != ']':
+                if peek() is None:
+                    raise RegexError('unterminated class in %r' % p)
+                lo = eat()
+                if lo == '\\':
+                    raise RegexError('escape in class in %r' % p)
+                if peek() == '-' and pos[0] + 1 < len(p) and p[pos[0] + 1] != ']':
+                    eat()
+                    hi = eat()
+                    items.append('(RRange %d %d)' % (ord(lo), ord(hi)))
+                else:
+                    items.append('(RChr %d)' % ord(lo))
+            eat()
+            out = items[-1]
+            for it in reversed(items[:-1]):
+                out = '(RAlt %s %s)' % (it, out)
+            return out
+        if c == '.':
+            return 'RAny'
+        if c in '\\^$*+?{}|)]':
+            raise RegexError('unsupported construct %r in %r' % (c, p))
+        return '(RChr %d)' % ord(c)
+
+    out = alt()
+    if pos[0] != len(p):
+        raise RegexError('trailing input in %r' % p)
+    return out
+
+
+G_BASE = {
+    'integer': '(BInt KInteger)', 'nonNegativeInteger': '(BInt KNonNeg)',
+    'long': '(BInt (KFixed true 64))', 'int': '(BInt (KFixed true 32))', 'short': '(BInt (KFixed true 16))',
+    'byte': '(BInt (KFixed true 8))', 'unsignedLong': '(BInt (KFixed false 64))', 'unsignedInt': '(BInt (KFixed false 32))',
+    'unsignedShort': '(BInt (KFixed false 16))', 'unsignedByte': '(BInt (KFixed false 8))',
+    'string': '(BStr false)', 'anyURI': '(BStr true)', 'boolean': 'BBool', 'decimal': 'BDec',
+    'double': '(BOpq ODouble)', 'float': '(BOpq OFloat)', 'date': '(BOpq ODate)', 'time': '(BOpq OTime)',
+    'dateTime': '(BOpq ODateTime)', 'duration': '(BOpq ODuration)', 'base64Binary': '(BOpq OBase64)', 'uuid': '(BOpq OUuid)'}
+OKIND = {'double': 'ODouble', 'float': 'OFloat', 'date': 'ODate', 'time': 'OTime', 'dateTime': 'ODateTime',
+         'duration': 'ODuration', 'base64Binary': 'OBase64', 'uuid': 'OUuid'}
+
+
+def float_key(f):
+    """order-preserving map of finite/infinite doubles to integers (-0.0 = 0.0)"""
+    import struct
+    if f == 0:
+        f = 0.0
+    b = struct.unpack('>q', struct.pack('>d', f))[0]
+    return b if b >= 0 else -(b & 0x7fffffffffffffff)
+
+
+_EPOCH = datetime.datetime(1970, 1, 1, tzinfo=datetime.timezone.utc)
+
+
+def native_key(base, o):
+    """order key of a native value of a delegated leaf kind"""
+    if base in ('double', 'float'):
+        return float_key(float(o))
+    if base == 'date':
+        return o.toordinal()
+    if base == 'time':
+        return ((o.hour * 60 + o.minute) * 60 + o.second) * 10 ** 6 + o.microsecond
+    if base == 'dateTime':
+        if o.tzinfo is None:
+            o = o.replace(tzinfo=datetime.timezone.utc)
+        d = o - _EPOCH
+        return (d.days * 86400 + d.seconds) * 10 ** 6 + d.microseconds
+    if base == 'duration':
+        return (o.days * 86400 + o.seconds) * 10 ** 6 + o.microseconds
+    return 0
+
+
+def g_dec(d):
+    sign, digits, exp = d.as_tuple()
+    return '(mkdec %s %s %s)' % (gbool(bool(sign)), gz(int(''.join(map(str, digits)))), gz(exp))
+
+
+class Renderer(object):
+    """desc + the real classes -> Gallina terms; collects the pattern and delegated-leaf tables"""
+
+    def __init__(self, desc, classes, prot):
+        self.desc, self.classes, self.prot = desc, classes, prot
+        self.patterns = {}
+        self.opq = {}      # (kind, text) -> seen
+
+    def sval(self, leaf, v, scls):
+        k = v[0]
+        if k == 'int':
+            return '(SInt %s)' % gz(v[1])
+        if k == 'text':
+            return '(SText %s)' % gtext(v[1])
+        if k == 'bool':
+            return '(SBool %s)' % gbool(v[1])
+        if k == 'dec':
+            return '(SDec %s)' % g_dec(D(v[1]))
+        base = leaf['base']
+        o = to_native_leaf(v)
+        canon = self.prot.to_unicode(scls, o)
+        if isinstance(canon, bytes):
+            canon = canon.decode('ascii')
+        self.note_opq(base, canon)
+        return '(SOpq %s %s %s)' % (OKIND[base], gz(native_key(base, o)), gtext(canon))
+
+    def note_opq(self, base, text):
+        self.opq[(base, text)] = True
+
+    def pattern(self, p):
+        self.patterns[p] = parse_re(p)
+        return '(%s, %s)' % (gtext(p), self.patterns[p])
+
+    def stype(self, leaf, scls):
+        """scls: the real (customised) Spyne class of the leaf"""
+        fa = leaf['facets']
+        base = leaf['base']
+        A = scls.Attributes
+        msl = getattr(A, 'max_str_len', None)
+        if base in INT_BOUNDS or base in ('decimal', 'double', 'float'):
+            msl_t = 'PosInf' if msl is None or msl == D('inf') or msl == float('inf') else '(Fin %s)' % gz(int(msl))
+        else:
+            msl_t = 'PosInf'
+        pat = fa.get('pattern')
+        if base == 'uuid':
+            pat = scls.Attributes.pattern
+        f = '(mkfacets %s %s %s %s %s %s %s %s %s %s %s)' % (
+            gopt(fa.get('gt'), lambda v: self.sval(leaf, v, scls)), gopt(fa.get('ge'), lambda v: self.sval(leaf, v, scls)),
+            gopt(fa.get('lt'), lambda v: self.sval(leaf, v, scls)), gopt(fa.get('le'), lambda v: self.sval(leaf, v, scls)),
+            glist([self.sval(leaf, v, scls) for v in fa.get('values', [])]),
+            gopt(fa.get('min_len'), gz), gopt(fa.get('max_len'), gz),
+            gopt(pat, self.pattern), gopt(fa.get('total_digits'), gz), gopt(fa.get('fraction_digits'), gz), msl_t)
+        named = bool(fa) or base == 'uuid'
+        qn = 'None'
+        if named:
+            qn = '(Some (%s, %s))' % (gtext(scls.get_namespace() or ''), gtext(scls.get_type_name()))
+        return '(mkstype %s %s %s)' % (G_BASE[base], f, qn)
+
+    def ty(self, ty, scls):
+        if ty[0] == 'leaf':
+            return '(DLeaf %s)' % self.stype(ty[1], scls)
+        if ty[0] == 'ref':
+            return '(DRef %d%%nat)' % ty[1]
+        (iname, icls), = scls._type_info.items()
+        return '(DArr (%s, %s) %s %s)' % (gtext(scls.get_namespace() or ''), gtext(scls.get_type_name()), gtext(iname),
+                                         self.ty(ty[1], icls))
+
+    def fld(self, f, v):
+        scls = v.type if f['kind'] == 'attr' else v
+        A = scls.Attributes
+        mx = 'PosInf' if f['max'] is None else '(Fin %s)' % gz(f['max'])
+        dflt = 'None'
+        if f.get('default') is not None:
+            dflt = '(Some %s)' % self.sval(f['ty'][1], f['default'], scls)
+        ch = 'None'
+        if f.get('choice'):
+            self.groups.setdefault(f['choice'], len(self.groups))
+            ch = '(Some %d)' % self.groups[f['choice']]
+        return '(mkfld %s %s %s %s %s %s %s %s None)' % (
+            gtext(f['name']), self.ty(f['ty'], scls), gz(f['min']), mx, gbool(f['nillable']),
+            'FAttr' if f['kind'] == 'attr' else 'FElem', ch, dflt)
+
+    def universe(self, svc=None):
+        """[klass...]: the classes of desc, then (when a service is given) the in/out message
+        classes of its methods m0..m(n-1): message of class i = 2 entries at n + 2 i, n + 2 i + 1"""
+        self.groups = {}
+        rows = []
+        for cid, c in enumerate(self.desc['classes']):
+            cls = self.classes[cid]
+            flds = [self.fld(f, cls._type_info[f['name']]) for f in c['fields']]
+            rows.append('(mkklass %s %s %s %s)' % (gtext(c['ns']), gtext(c['name']),
+                                                   gopt(c['parent'], lambda p: '%d%%nat' % p), glist(flds)))
+        if svc is not None:
+            for i in range(len(self.classes)):
+                d = svc.public_methods['m%d' % i]
+                for msg in (d.in_message, d.out_message):
+                    (fname, ftype), = msg._type_info.items()
+                    A = ftype.Attributes
+                    mx = 'PosInf' if A.max_occurs in (D('inf'), float('inf')) else '(Fin %s)' % gz(int(A.max_occurs))
+                    rows.append('(mkklass %s %s None [mkfld %s (DRef %d%%nat) %s %s %s FElem None None None])' % (
+                        gtext(msg.get_namespace()), gtext(msg.get_type_name()), gtext(fname), i, gz(int(A.min_occurs)), mx,
+                        gbool(bool(A.nillable))))
+        return glist(rows)
+
+    def value(self, ty, v, scls):
+        """neutral value of declared type ty -> Gallina value; scls = real class of the type"""
+        k = v[0]
+        if k == 'none':
+            return 'NNone'
+        if k == 'list':
+            if ty[0] == 'arr':
+                (_, icls), = scls._type_info.items()
+                return '(NList %s)' % glist([self.value(ty[1], x, icls) for x in v[1]])
+            return '(NList %s)' % glist([self.value(ty, x, scls) for x in v[1]])
+        if k == 'obj':
+            cls = self.classes[v[1]]
+            fti = cls.get_flat_type_info(cls)
+            out = []
+            for (_, f), x in zip(flat_fields(self.desc, v[1]), v[2]):
+                m = fti[f['name']]
+                out.append(self.value(f['ty'], x, m.type if f['kind'] == 'attr' else m))
+            return '(NObj %d%%nat %s)' % (v[1], glist(out))
+        return '(NLeaf %s)' % self.sval(ty[1], v, scls)
